@@ -1,6 +1,6 @@
 (* C05 — property theorems (statements only; proofs live in Proofs*.v). *)
 From Coq Require Import List ZArith QArith Bool Sorting.Permutation.
-Require Import QV.C05.Model QV.C05.Spec QV.C05.Param QV.C05.Proofs QV.C05.Proofs2 QV.C05.Proofs3 QV.C05.Proofs4 QV.C05.Proofs5 QV.C05.Ctors QV.C05.Proofs6 QV.C05.Proofs7 QV.C05.ProofsP QV.C05.Proofs8 QV.C05.Proofs9 QV.C05.Proofs10.
+Require Import QV.C05.Model QV.C05.Spec QV.C05.Param QV.C05.Proofs QV.C05.Proofs2 QV.C05.Proofs3 QV.C05.Proofs4 QV.C05.Proofs5 QV.C05.Ctors QV.C05.Proofs6 QV.C05.Proofs7 QV.C05.ProofsP QV.C05.Proofs8 QV.C05.Proofs9 QV.C05.Proofs10 QV.C05.Proofs11.
 Import ListNotations.
 Open Scope Z_scope.
 
@@ -212,6 +212,23 @@ Example C05_parallel_atomic_nonvacuous :
                                           MLeaf [] (AFun 2%N (EAff 2 []) 1%Q (EAff 0 []))])).
 Proof. vm_compute. constructor; [intros [H|[]]; discriminate|]. constructor; [intros []|constructor]. Qed.
 
+(* ---- the constant fold of TransformingWaveform.from_transformation (round 4: it lists the keys Transformation.__call__
+        returns - a LinearTransformation none of whose inputs is among the data forwards everything and adds nothing):
+        for EVERY waveform, chain, channel and time the folded waveform samples like the transformation applied pointwise ---- *)
+Theorem C05_constant_fold_pointwise : forall w X c t,
+  usample (from_transformation w X) c t = chain_apply X (fun c' => usample w c' t) c.
+Proof. exact from_transformation_sample. Qed.
+Print Assumptions C05_constant_fold_pointwise.
+(* the keys a successful call returns support the transformed data: outside them the transformed data is undefined *)
+Theorem C05_call_keys_support : forall G f data ks, chain_callk G data = Some ks ->
+  (forall c, cmem c data = false -> f c = None) -> forall c, cmem c ks = false -> chain_apply G f c = None.
+Proof. exact chain_call_supp. Qed.
+Print Assumptions C05_call_keys_support.
+Theorem C05_linear_absent_forwards : forall ins outs mat data, ins <> [] -> cdisj data ins = true ->
+  tr_callk (TLinear ins outs mat) data = Some data.
+Proof. exact linear_absent_forwards. Qed.
+Print Assumptions C05_linear_absent_forwards.
+
 (* ---- freedom from KeyError, first step: the leaf of every un-collapsed atom, TransformingWaveform(atom, chain), never
         raises when it is looked at the way an upload does (defined_channels, get_sampled per sorted channel with the
         constant short-cut and the cache), reversed or not, when the chain has no LinearTransformation (the only
@@ -221,3 +238,9 @@ Theorem C05_atom_leaf_never_raises : forall d chs G, no_linear G = true ->
   wf_raises (WTrans (WAtom d chs) G) = false /\ wf_raises (WRev (WTrans (WAtom d chs) G)) = false.
 Proof. exact atom_leaf_never_raises. Qed.
 Print Assumptions C05_atom_leaf_never_raises.
+(* second step: ONE LinearTransformation all of whose inputs are channels of the atom (any outputs, any matrix) *)
+Theorem C05_atom_leaf_linear_never_raises : forall d chs ins outs mat, csub ins (map fst chs) = true ->
+  wf_raises (WTrans (WAtom d chs) [TLinear ins outs mat]) = false /\
+  wf_raises (WRev (WTrans (WAtom d chs) [TLinear ins outs mat])) = false.
+Proof. exact atom_leaf_linear_never_raises. Qed.
+Print Assumptions C05_atom_leaf_linear_never_raises.
